@@ -12,13 +12,20 @@ import (
 
 	"google.golang.org/grpc"
 	"google.golang.org/grpc/connectivity"
+	"google.golang.org/grpc/credentials/insecure"
+	"google.golang.org/grpc/status"
 
 	pb "github.com/GoogleCloudPlatform/grpc-gcp-go/grpcgcp/grpc_gcp"
 	"github.com/GoogleCloudPlatform/grpc-gcp-go/grpcgcp/multiendpoint"
 
+	"verif/engine/vctx"
 	"verif/engine/vgrpc"
 	"verif/engine/vsched"
 )
+
+func vctxWithCancel() (context.Context, context.CancelFunc) {
+	return vctx.WithCancel(context.Background())
+}
 
 func init() {
 	extraChecks["C15"] = func(c *vsched.RunCtx) { checkGME(c, "C15") }
@@ -669,6 +676,15 @@ func checkGME(c *vsched.RunCtx, prop string) {
 		}
 		return
 	}
+	if c.Shard == 0 {
+		verdict, diffs := stubConformance()
+		c.Extra("stub_conformance", verdict)
+		if len(diffs) > 0 {
+			c.Extra("stub_conformance_diffs", diffs)
+			// a fake that disagrees with gRPC invalidates the harness, not the library
+			panic(vsched.CheckError{Msg: "vgrpc fake pool disagrees with a real grpc.ClientConn: " + strings.Join(diffs, "; ")})
+		}
+	}
 	idx, sub, nsub := c.Split(len(cfgs))
 	for _, i := range idx {
 		cfg := cfgs[i]
@@ -810,4 +826,80 @@ func runGMEDrivers(c *vsched.RunCtx, race bool) {
 			Deadline: c.Deadline, Shard: c.Shard, NShards: c.NShards}, gmeDriverBody(v))
 		c.Add(res)
 	}
+}
+
+// ---- conformance of the fake pool with a real grpc.ClientConn ----
+//
+// The contract the library relies on (GetState / WaitForStateChange / Close /
+// Invoke after Close) is exercised on a real ClientConn dialed to an
+// unreachable passthrough target and on the fake; the observations must agree.
+// Real gRPC goroutines run here (outside the scheduler); waits are event
+// driven with a long guard; a guard expiry is reported as inconclusive.
+func stubConformance() (string, []string) {
+	var diffs []string
+	obs := func(name string, real, fake interface{}) {
+		if fmt.Sprint(real) != fmt.Sprint(fake) {
+			diffs = append(diffs, fmt.Sprintf("%s: real=%v fake=%v", name, real, fake))
+		}
+	}
+	rc, err := grpc.Dial("passthrough:///127.0.0.1:1", grpc.WithTransportCredentials(insecure.NewCredentials()))
+	if err != nil {
+		return "inconclusive: dial failed: " + err.Error(), nil
+	}
+	guard, cancelGuard := context.WithTimeout(context.Background(), 20*time.Second)
+	defer cancelGuard()
+	// 1. WaitForStateChange returns true once the state differs from the source state
+	s0 := rc.GetState()
+	changed := rc.WaitForStateChange(guard, s0)
+	if guard.Err() != nil {
+		rc.Close()
+		return "inconclusive: real connection did not change state within the guard", nil
+	}
+	var fakeChanged bool
+	vsched.Run(vsched.Opts{}, func(s *vsched.Sched) {
+		vgrpc.Reset()
+		fc := vgrpc.NewFake("t", nil)
+		th := s.Go("waiter", func() { fakeChanged = fc.WaitForStateChange(context.Background(), connectivity.Idle) })
+		s.WaitQuiescent()
+		parkedBefore := !th.Done()
+		fc.SetState(connectivity.Connecting)
+		s.WaitQuiescent()
+		obs("WaitForStateChange blocks while the state equals the source state", true, parkedBefore)
+		obs("WaitForStateChange returns true after a change", changed, fakeChanged && th.Done())
+		// 2. an expired context makes it return false
+		ctx, cancel := context.WithCancel(context.Background())
+		cancel()
+		realFalse := rc.WaitForStateChange(ctx, rc.GetState())
+		vctxC, vcancel := vctxWithCancel()
+		vcancel()
+		fakeFalse := fc.WaitForStateChange(vctxC, fc.GetState())
+		obs("WaitForStateChange with an ended context", realFalse, fakeFalse)
+		// 3. Close: state SHUTDOWN, second Close fails, RPCs fail, waiting on SHUTDOWN only ends with the context
+		e1 := rc.Close()
+		f1 := fc.Close()
+		obs("first Close error", e1, f1)
+		obs("state after Close", rc.GetState(), fc.GetState())
+		e2 := rc.Close()
+		f2 := fc.Close()
+		obs("second Close error", e2, f2)
+		re := rc.Invoke(context.Background(), "/svc/m", nil, nil)
+		fe := fc.Invoke(context.Background(), "/svc/m", nil, nil)
+		obs("Invoke after Close (status code)", status.Code(re), status.Code(fe))
+		short, cancelShort := context.WithTimeout(context.Background(), 50*time.Millisecond)
+		defer cancelShort()
+		realWait := rc.WaitForStateChange(short, connectivity.Shutdown)
+		vc2, vcancel2 := vctxWithCancel()
+		var fakeWait bool
+		th2 := s.Go("waiter2", func() { fakeWait = fc.WaitForStateChange(vc2, connectivity.Shutdown) })
+		s.WaitQuiescent()
+		parked := !th2.Done()
+		vcancel2()
+		s.WaitQuiescent()
+		obs("WaitForStateChange(SHUTDOWN) blocks until the context ends", true, parked && th2.Done())
+		obs("WaitForStateChange(SHUTDOWN) result", realWait, fakeWait)
+	})
+	if len(diffs) > 0 {
+		return "MISMATCH", diffs
+	}
+	return "ok: 9 observations agree (WaitForStateChange blocking/true/false, Close twice, state after Close, Invoke after Close, wait on SHUTDOWN)", nil
 }
